@@ -146,6 +146,77 @@ def small_fields(rng, thorough):
     return out
 
 
+# --------------------------------------------------------------------------- dictionary-driven field substitution
+DICT = [0, 1, 2, 3, 16, 18, 22, 24, 32, 40, 0xfffe, 0xffff]
+TAGS32 = [pw.u(t, 0, 4) for t in (pw.RIFF, pw.WAVE, pw.FMT_, pw.FACT, pw.DATA)]
+GUID_TAIL = bytes([0, 0, 0, 0, 0x10, 0, 0x80, 0, 0, 0xaa, 0, 0x38, 0x9b, 0x71])
+
+
+def dict_bases():
+    """fixed, valid headers of every kind (name, bytes)"""
+    ext = lambda tag, bits: ('cb', 22, pw.le(bits, 2) + pw.le(3, 4) + pw.le(tag, 2) + GUID_TAIL)
+    return [
+        ('ext22', pw.build_header(0xfffe, 2, 48000, 48000 * 8, 8, 32, 800, ext=ext(1, 32))),
+        ('ext22+fact', pw.build_header(0xfffe, 2, 48000, 48000 * 8, 8, 32, 800, fact_samples=100, ext=ext(3, 32))),
+        ('pcm16', pw.build_header(1, 2, 44100, 44100 * 4, 4, 16, 400)),
+        ('float+fact', pw.build_header(3, 1, 8000, 32000, 4, 32, 64, fact_samples=16, ext=('cb', 0, b''))),
+        ('ext-skipped', pw.build_header(0xfffe, 2, 44100, 44100 * 4, 4, 16, 400, ext=('cb', 6, bytes([1, 0, 0xfe, 0xff, 3, 0])))),
+    ]
+
+
+def field_positions(hdr):
+    """(offset, width, format-determining?) of every 16- and 32-bit field position of this header, the first two and the
+    first four bytes of sub_format included (that is where an extensible header carries its real format tag)"""
+    fcs = pw.u(hdr, 16, 4)
+    f = [(0, 4, False), (4, 4, False), (8, 4, False), (12, 4, False), (16, 4, True), (20, 2, True), (22, 2, False), (24, 4, False),
+         (28, 4, False), (32, 2, False), (34, 2, True)]
+    pos = 36
+    if fcs >= 18:
+        f.append((36, 2, True))
+        if pw.u(hdr, 36, 2) == 22:
+            f += [(38, 2, False), (40, 4, False), (44, 2, True), (44, 4, True), (48, 4, False)]
+            pos = 60
+        else:
+            if fcs - 18 >= 2: f.append((38, 2, True))
+            if fcs - 18 >= 4: f.append((38, 4, False))
+            pos = 38 + fcs - 18
+    while pos + 4 <= len(hdr):                                   # chunk tags and the 32-bit fields that follow them
+        f.append((pos, 4, False)); pos += 4
+    return f
+
+
+def subst(hdr, changes):
+    b = bytearray(hdr)
+    for (o, wd, v) in changes:
+        b[o:o + wd] = pw.le(v & ((1 << (8 * wd)) - 1), wd)
+    return bytes(b)
+
+
+def dictionary_fields(rng, thorough):
+    """the constants that matter to the format substituted into every field position: singly everywhere; in all pairs (and
+    sampled / exhaustive triples) among the format-determining fields (fmt size, audio_format, bits, cb_size, sub_format[0..1],
+    sub_format[0..3]) — for the extensible header and for every other kind"""
+    out = []
+    for name, hdr in dict_bases():
+        fs = field_positions(hdr)
+        for (o, wd, _) in fs:
+            for v in DICT + (TAGS32 if wd == 4 else []):
+                out.append(hist(len(hdr), subst(hdr, [(o, wd, v)])))
+        det = [(o, wd) for (o, wd, d) in fs if d]
+        pairs = [(a, b) for i, a in enumerate(det) for b in det[i + 1:] if not (a[0] == b[0])]
+        full = name.startswith('ext22') or thorough
+        for (a, b) in pairs:
+            for va in DICT:
+                for vb in DICT:
+                    if full or rng.chance(1, 6):
+                        out.append(hist(len(hdr), subst(hdr, [(a[0], a[1], va), (b[0], b[1], vb)])))
+        ntrip = 4000 if thorough else 250
+        for _ in range(ntrip):
+            ch = rng.shuffle(list(det))[:3]
+            out.append(hist(len(hdr), subst(hdr, [(o, wd, rng.choice(DICT)) for (o, wd) in ch])))
+    return out
+
+
 def harness(ctx):
     return c13.harness(ctx)
 
@@ -178,6 +249,8 @@ def run(ctx):
     hs += near
     small = small_fields(rng, not q)
     hs += small
+    dic = dictionary_fields(rng, not q)
+    hs += dic
     nrand = 400 if q else 20000
     for _ in range(nrand):                                        # random bytes of every small length
         n = rng.range(0, 100)
@@ -202,12 +275,12 @@ def run(ctx):
         ctx.cov['line_coverage_of_modelled_code'] = pw.uncovered_lines(ctx, os.path.join(vlib.VERIF, 'harness/h_wav.c'),
             [R + '/librfn/wavheader.c', R + '/librfn/pack.c', R + '/librfn/string.c', R + '/librfn/util.c', R + '/librfn/posix/time_posix.c'], hs)
     ctx.cov['decode_results'] = kinds
-    ctx.cov['histories'] = {'corpus': ncorpus, 'truncation_points': ntrunc, 'field_mutated': nmut, 'adversarial_size_fields': nadv, 'near_miss_tags': len(near), 'small_16bit_fields_singly_and_in_pairs': len(small), 'random_bytes': nrand}
+    ctx.cov['histories'] = {'corpus': ncorpus, 'truncation_points': ntrunc, 'field_mutated': nmut, 'adversarial_size_fields': nadv, 'near_miss_tags': len(near), 'small_16bit_fields_singly_and_in_pairs': len(small), 'dictionary_substitutions': len(dic), 'random_bytes': nrand}
     ctx.sample({'history': [x[:150] for x in hs[ncorpus + 50]]})
     ctx.sample({'history': [x[:150] for x in hs[-20]]})
     ctx.cov['rule'] = ('each history = decode(exactly-sized heap copy of sz bytes) then validate, get_format, tostring on whatever structure resulted; inputs: every truncation point of valid PCM / float+fact / '
                        'extensible headers, the complete headers with trailing payload, 1-3 field mutations (size fields from {0..41, 0x7fffff00+-1, 0x80000000, 0xffffffff-r}, tags, cb_size, truncation/extension), '
-                       'adversarial fmt/RIFF size fields on plausible headers, every 16-bit format field set to 0..9 singly and in all pairs (helpers then run on the degenerate structure), random bytes of length 0..100; distinct = distinct op list; non-trivial = at least the 36 fixed bytes supplied')
+                       'adversarial fmt/RIFF size fields on plausible headers, every 16-bit format field set to 0..9 singly and in all pairs (helpers then run on the degenerate structure), the constants of the format (0,1,2,3,16,18,22,24,32,40,0xfffe,0xffff and the five tags) substituted into every 16/32-bit field position incl. sub_format[0..1]/[0..3] singly and in pairs/triples of the format-determining fields on headers of every kind, random bytes of length 0..100; distinct = distinct op list; non-trivial = at least the 36 fixed bytes supplied')
     ctx.assumptions.append(META['level_note'])
 
 
